@@ -172,34 +172,51 @@ def conv_local(x, k, b, ksz, strides, padding, k_dil, nd):
   return y
 
 
-def conv_transpose(x, k, b, strides, padding, transpose_kernel, nd):
-  """the adjoint of the strided forward convolution: y = A^T x where A is the forward conv (stride s, same padding
-  name) from the output size to the input size; with transpose_kernel=False the kernel is given flipped with in/out swapped"""
+def conv_transpose(x, k, b, strides, padding, transpose_kernel, nd, kdil=None):
+  """the adjoint of the strided forward convolution: y = A^T x where A is the forward conv (stride s, dilation d, same
+  padding name) from the output size to the input size; with transpose_kernel=False the kernel is given flipped with
+  in/out swapped.  CIRCULAR: the VALID result wrapped periodically with period n*s, centred as the layer documents
+  (the odd element of the centring goes left, or right with transpose_kernel)."""
+  kdil = list(kdil) if kdil else [1] * nd
   lead = x.shape[:x.ndim - nd - 1]
   x = x.reshape((-1,) + x.shape[x.ndim - nd - 1:]) if x.ndim != nd + 2 else x
   ksz = k.shape[:nd]
+  keff = [(kk - 1) * d + 1 for kk, d in zip(ksz, kdil)]
   if not transpose_kernel:
     k = np.flip(k, axis=tuple(range(nd))).swapaxes(-1, -2)      # now (K..., out, in): the forward conv's kernel maps out -> in
   cout, cin = k.shape[-2], k.shape[-1]
   assert cin == x.shape[-1]
   sizes = x.shape[1:1 + nd]
-  if padding == 'SAME':
+  circular = padding == 'CIRCULAR'
+  base = 'VALID' if circular else padding
+  if base == 'SAME':
     osz = [n * s for n, s in zip(sizes, strides)]
-  elif padding == 'VALID':
-    osz = [(n - 1) * s + max(kk, s) for n, s, kk in zip(sizes, strides, ksz)]
+  elif base == 'VALID':
+    osz = [(n - 1) * s + max(ke, s) for n, s, ke in zip(sizes, strides, keff)]
   else:
     raise ValueError(padding)
   y = np.zeros((x.shape[0],) + tuple(osz) + (cout,))
-  # forward conv: z[i, ci] = sum_{t, co} ypad[i*s + t - lo, co] * k[t, co, ci]; adjoint scatters x[i, ci] back
-  pads = _pads(padding, osz, list(ksz), strides, [1] * nd, ksz, nd)
+  # forward conv: z[i, ci] = sum_{t, co} ypad[i*s + t*d - lo, co] * k[t, co, ci]; adjoint scatters x[i, ci] back
+  pads = _pads(base, osz, keff, strides, kdil, ksz, nd)
   for n in range(x.shape[0]):
     for i in np.ndindex(*sizes):
       for t in np.ndindex(*ksz):
-        pos = tuple(i[a] * strides[a] + t[a] - pads[a][0] for a in range(nd))
+        pos = tuple(i[a] * strides[a] + t[a] * kdil[a] - pads[a][0] for a in range(nd))
         if any(p < 0 or p >= osz[a] for a, p in enumerate(pos)):
           continue
         for co in range(cout):
           y[(n,) + pos + (co,)] += sum(x[(n,) + i + (ci,)] * k[t + (co, ci)] for ci in range(cin))
+  if circular:
+    period = [n * s for n, s in zip(sizes, strides)]
+    out = np.zeros((x.shape[0],) + tuple(period) + (cout,))
+    lefts = []
+    for a in range(nd):
+      sd = (-(osz[a] - period[a])) % (2 * period[a])
+      lefts.append(sd // 2 if transpose_kernel else (sd + 1) // 2)
+    for q in np.ndindex(*osz):
+      j = tuple((q[a] + lefts[a]) % period[a] for a in range(nd))
+      out[(slice(None),) + j] += y[(slice(None),) + q]
+    y = out
   if b is not None:
     y = y + b
   if len(lead) != 1:
